@@ -336,6 +336,19 @@ def fieldNamesOk (declared : List Nat) (given : List Nat) : Option String :=
   else if declared.any (fun f => !given.contains f) then some "missing-field"
   else none
 
+/-- the variables a pattern binds, with the types of the variant's fields
+    (`vs = none`: nothing is known about the examinee) -/
+def armBinds (vs : Option (List (PatName × List Ty))) : Pat → List (Nat × Ty)
+  | .wild => []
+  | .variant n bs =>
+    let xs := bs.getD []
+    match vs with
+    | none => xs.map fun x => (x, .unknown)
+    | some vs => xs.zip ((lookupVariant vs n).getD [])
+
+def armPat : Arm → Pat
+  | .mk p _ _ => p
+
 abbrev R := Except String
 
 def fail {α} (s : String) : R α := .error s
@@ -558,25 +571,21 @@ def synthList (env : Env) (ctx : Ctx) (g : Gamma) : List Expr → R (List Ty × 
 def synthArms (env : Env) (ctx : Ctx) (g : Gamma) (vs : Option (List (PatName × List Ty))) :
     List Arm → R (List Ty × Bool)
   | [] => pure ([], true)
-  | .mk p gd body :: rest => do
-    let binds : List (Nat × Ty) := match p with
-      | .wild => []
-      | .variant n bs =>
-        let xs := bs.getD []
-        match vs with
-        | none => xs.map fun x => (x, .unknown)
-        | some vs => xs.zip ((lookupVariant vs n).getD [])
-    match declareAll ([] :: g) binds with
+  | a :: rest => do
+    match declareAll ([] :: g) (armBinds vs (armPat a)) with
     | none => fail "redeclared"
     | some g' =>
-      match gd with
-      | none => pure ()
-      | some gd =>
-        let (tg, _) ← synth env ctx g' gd
-        expect "guard" tg .bool
-      let (tb, db) ← synthBlock env ctx g' body
+      let (tb, db) ← synthArm env ctx g' a
       let (ts, dr) ← synthArms env ctx g vs rest
       pure (tb :: ts, db && dr)
+
+/-- the guard (a condition) and the body of one arm, in the arm's scope -/
+def synthArm (env : Env) (ctx : Ctx) (g : Gamma) : Arm → R TD
+  | .mk _ none body => synthBlock env ctx g body
+  | .mk _ (some gd) body => do
+    let (tg, _) ← synth env ctx g gd
+    expect "guard" tg .bool
+    synthBlock env ctx g body
 
 /-- statements of a block, threading the innermost scope -/
 def synthStmts (env : Env) (ctx : Ctx) (g : Gamma) : List Stmt → R (Gamma × Bool)
